@@ -501,6 +501,13 @@ def run(chk):
     res = chk.guard("O15.3", c15.FACTORY, c15.discover, chk)
     if res:
         chk.guard("O15.3", c15.FACTORY, c15.reap, chk, *res)
+        chk.guard("O15.4", c15.FACTORY, c15.orderable_sort, chk, *res)
+    # "indefinitely and without raising": Stepwise.run calls what the range table gives it for ANY supply >= 0, so the
+    # table must cover [0, inf) without gaps (shared with C08)
+    from . import c08
+
+    chk.guard("O8.4", c08.STEPWISE, c08.stepwise, chk)
+    chk.guard("O8.6", c08.UNBOUND, c08.stepwise_wiring, chk)
 
 
 def run_thorough(chk):
